@@ -1,0 +1,45 @@
+//go:build verif
+
+package syntax
+
+// Verification hooks (build tag verif): a switch that turns the semantics-preserving rewrites
+// of tree.go off, and structural views of character classes.
+
+// VerifDisableRewrites, when set, makes Parse skip the rewrites property C05 is about
+// (auto-atomic loops, ending-backtracking removal, bump-along markers, alternation prefix
+// factoring, atomic-alternation reordering/trimming).
+var VerifDisableRewrites bool
+
+func verifRewritesOff() bool { return VerifDisableRewrites }
+
+// VerifCharSet is a structural copy of a CharSet.
+type VerifCharSet struct {
+	Ranges     [][2]rune
+	Categories []Category
+	Negate     bool
+	Anything   bool
+	Sub        *VerifCharSet
+	HasBitmap  bool
+}
+
+func (c *CharSet) VerifDump() *VerifCharSet {
+	if c == nil {
+		return nil
+	}
+	out := &VerifCharSet{Negate: c.negate, Anything: c.anything, HasBitmap: c.ascii != nil}
+	for _, r := range c.ranges {
+		out.Ranges = append(out.Ranges, [2]rune{r.First, r.Last})
+	}
+	out.Categories = append(out.Categories, c.categories...)
+	if c.sub != nil {
+		out.Sub = c.sub.VerifDump()
+	}
+	return out
+}
+
+// VerifCharInSlow is the general (non-bitmap) lookup path.
+func (c *CharSet) VerifCharInSlow(ch rune) bool { return c.charInSlow(ch) }
+
+// VerifOpcodeSize / VerifOpcodeBacktracks expose the opcode tables.
+func VerifOpcodeSize(op InstOp) int        { return opcodeSize(op) }
+func VerifOpcodeBacktracks(op InstOp) bool { return opcodeBacktracks(op) }
